@@ -5,7 +5,7 @@ From Coq Require Import List NArith Bool Lia String.
 From Verif.Common Require Import Packet PolicyRef Ipt.
 From Verif.C08 Require Import Model Spec ProofsFilter.
 From Verif.C08 Require Proofs.
-From Verif.C09 Require Import Model ProofsPolicy ProofsModel.
+From Verif.C09 Require Import Model ProofsPolicy ProofsQos ProofsModel.
 From Verif.C09 Require Spec.
 From Verif.C11 Require Import Bpf Model.
 From Verif.C11 Require Spec ProofsMain ProofsSets ProofsFinal.
@@ -19,7 +19,7 @@ Definition ex_cn : cfg :=
   {| c_flavor := Nft; c_accept := c_accept ex_ci; c_pass := c_pass ex_ci; c_drop := c_drop ex_ci;
      c_scratch0 := c_scratch0 ex_ci; c_scratch1 := c_scratch1 ex_ci; c_flowlogs := true; c_untracked := false;
      c_deny := DenyReject; c_log_limit := false; c_fixed := false |}.
-Definition ex_ec : ecfg := Build_ecfg TNormal true None AllowAccept true None false false.
+Definition ex_ec : ecfg := Build_ecfg TNormal true None AllowAccept true None false false false false.
 Definition ex_env : Ipt.env := {| Ipt.e_sets := ref_sets V4 ex_tbl; e_other := fun _ _ => true |}.
 
 Definition r_pass_tcp : rule := with_proto (any_rule Pass) 6.
@@ -48,6 +48,7 @@ Qed.
 Lemma ex_ipt_hyps : ipt_hyps ex_ci ex_env ex_ec V4 "ep" ex_mt_i ex_mp ex_tbl ex_tiers ex_profs tcp_packet.
 Proof.
   constructor; try reflexivity.
+  - intros k p p' _. reflexivity.
   - cbn. repeat constructor; cbn; intuition discriminate.
   - apply ex_rule_ok; [reflexivity|]. intros r Hr. cbn in Hr. intuition.
 Qed.
@@ -55,6 +56,7 @@ Qed.
 Lemma ex_nft_hyps : ipt_hyps ex_cn ex_env ex_ec V4 "ep" ex_mt_n ex_mp ex_tbl ex_tiers ex_profs tcp_packet.
 Proof.
   constructor; try reflexivity.
+  - intros k p p' _. reflexivity.
   - cbn. repeat constructor; cbn; intuition discriminate.
   - apply ex_rule_ok; [reflexivity|]. intros r Hr. cbn in Hr. intuition.
 Qed.
